@@ -3,24 +3,37 @@
 
    Proved for every program list and every schedule:
      C14_after_close, C14_mutual_exclusion.
-   Proved for every state that satisfies the protocol invariant CloseInv.Inv1
-   (locks, closed flag / stages of Close, channels, rotation goroutine; single writer):
-     C14_racing_calls_partial (no step can panic there),
-     C14_no_deadlock_partial (if a caller has not returned, some thread can step: a writer
-       parked in awaitRotation is woken by the rotator or by Close),
-     C14_rotator_exits_partial (after Close was called the system cannot rest with the
-       rotation goroutine alive).
-   NOT proved (the inductiveness of Inv1 beyond pc consistency / roles / mutex, and
-   the refcount + finalizer + handle-ownership invariant are executable and tested
-   on pseudo-random schedules, see Conc/CloseCheck.v, but not proved):
-     C14_racing_calls  (every outcome is the correct result or ErrClosed, Panic unreachable)
-     C14_no_deadlock, C14_rotator_exits (for reachable states instead of Inv1 states),
-     C14_handles_released.
-   Their full statements are kept below as comments; the implementation side is
-   judged by the oracles of the sched14 stream (recover(), watchdog, goroutine
-   count, handle accounting, reopen). *)
+   Proved for every REACHABLE state of a system with a single writer thread
+   (single_writer w progs extra: only thread w runs StoreLogs/DeleteRange; any number of
+   readers, stable-store callers and Close callers; the rotation goroutine is thread
+   `length progs`).  The invariant  Full2 = CloseSafe.Safe /\ CloseInv.Inv1 /\ CloseInv2.Inv2
+   is inductive (CloseReach.full_reach, CloseReach2.full2_reach):
+     C14_no_panic           no call ever panics (nil state, closed / nil channel, offsets index)
+     C14_no_deadlock        if a call has not returned some thread can step (a writer parked in
+                            awaitRotation is woken by the rotation goroutine or by Close)
+     C14_rotator_exits      after Close was called the system cannot rest with the rotation
+                            goroutine alive
+     C14_racing_calls       every outcome recorded by a call is a result or ErrClosed
+                            (CloseInv2.allowed), in program order
+     C14_racing_calls_clean in particular never Panic, never an I/O error through a closed
+                            or deleted file, never a metaDB error
+     C14_handles_released   after Close and after every call returned, every file handle ever
+                            opened has been closed exactly once, and the metaDB exactly once
+   Inv2 is the reference-count / retired-bit / finalizer / handle-ownership invariant: the
+   count of every state equals the references held by threads plus the reference of its
+   predecessor's finalizer; every open handle has exactly one owner (the current state, one
+   finalizer that has not run, or one running release); a finalizer exists only for a retired
+   state and runs only when the count reached `retired`; a validated holder of state x keeps
+   the finalizers of all states >= x from running, so every handle it can reach is open.
+
+   Remaining caveat (visible in CloseInv2.allowed): ErrSealed is listed as a possible outcome
+   of StoreLogs; that it cannot occur with a single writer (a sealed tail is always rotated
+   before the next append) is not proved here.  The implementation side is judged by the
+   oracles of the sched14 stream (recover(), watchdog, goroutine count, handle accounting,
+   two reopen cycles). *)
 From Coq Require Import List Arith Bool Lia.
-From RW Require Import Conc.Sys Conc.Close Conc.CloseInv Conc.CloseLive Conc.CloseSafe Conc.CloseReach Conc.CloseThm.
+From RW Require Import Conc.Sys Conc.Close Conc.CloseInv Conc.CloseInv2 Conc.CloseLive Conc.CloseSafe Conc.CloseReach
+     Conc.CloseThm Conc.CloseThm2.
 Import ListNotations.
 
 Theorem C14_after_close : forall progs extra s,
@@ -68,6 +81,32 @@ Theorem C14_rotator_exits : forall w progs extra s,
 Proof. exact rotator_exits_reach. Qed.
 Print Assumptions C14_rotator_exits.
 
+(* thread t has executed the prefix `ops` of its program; each of these calls recorded an
+   allowed outcome: a result (Ok / NotFound) or ErrClosed *)
+Theorem C14_racing_calls : forall w progs extra s,
+  single_writer w progs extra -> reach progs extra s ->
+  forall t th, nth_error (ths s) t = Some th -> t <> length progs ->
+    exists ops, nth_error (progs ++ [] :: extra) t = Some (ops ++ t_prog th) /\
+                Forall2 (fun o res => allowed o res = true) ops (t_outs th).
+Proof. exact racing_calls. Qed.
+Print Assumptions C14_racing_calls.
+
+Theorem C14_racing_calls_clean : forall w progs extra s,
+  single_writer w progs extra -> reach progs extra s ->
+  forall t th res, nth_error (ths s) t = Some th -> t <> length progs -> In res (t_outs th) ->
+    res <> Panic /\ res <> IOErr /\ res <> MetaErr.
+Proof. exact outcomes_clean. Qed.
+Print Assumptions C14_racing_calls_clean.
+
+(* Close has been called and every caller is between calls: nothing leaks, nothing is
+   closed twice *)
+Theorem C14_handles_released : forall w progs extra s,
+  single_writer w progs extra -> reach progs extra s -> g_closed (sh s) = true ->
+  (forall t th, nth_error (ths s) t = Some th -> t <> length progs -> t_pc th = PIdle) ->
+  (forall h, h < length (g_hnds (sh s)) -> h_closes (geth (sh s) h) = 1) /\ g_meta_closes (sh s) = 1.
+Proof. exact handles_released. Qed.
+Print Assumptions C14_handles_released.
+
 (* ---- non-vacuity / the interesting window -------------------------------------------- *)
 (* GetLog passes the closed check, Close runs to completion, GetLog loads the state:
    it finds the empty state and returns ErrClosed; Close returned Ok; handle closed once *)
@@ -80,14 +119,12 @@ Example C14_ex_window :
   map h_closes (g_hnds (sh s)) = [1] /\ g_meta_closes (sh s) = 1 /\ crashed s = false.
 Proof. vm_compute. repeat split; reflexivity. Qed.
 
-(* the hypotheses of C14_racing_calls_partial are satisfiable: the initial state
-   satisfies the executable mirror of Inv1 (writer 0, rotator 2) *)
 Example C14_ex_closed_flag :
   g_closed (sh (run step (init ex_progs []) [1])) = true.
 Proof. vm_compute. reflexivity. Qed.
 
-(* the hypothesis Inv1 of the three partial theorems is satisfiable: it holds in the
-   initial state of this configuration (no writer: w = 9; rotator = thread 2) *)
+(* the invariant is satisfiable: it holds in the initial state of this configuration
+   (no writer: w = 9; rotator = thread 2) *)
 Example C14_ex_inv1_init : Inv1 9 2 (init ex_progs []).
 Proof.
   assert (T : forall t th, nth_error (ths (init ex_progs [])) t = Some th ->
